@@ -14,12 +14,12 @@ import (
 func init() { register("C08", c08) }
 
 type funcInfo struct {
-	Idx                int
-	Name, GoName       string // placeholders: IDL name (inside string literals), Go method name
-	Oneway, Void       bool
+	Idx                    int
+	Name, GoName           string // placeholders: IDL name (inside string literals), Go method name
+	Oneway, Void           bool
 	KnownOneway, KnownVoid bool
-	NArgs, NThrows     int
-	ThrowsKnown        bool
+	NArgs, NThrows         int
+	ThrowsKnown            bool
 }
 
 func functionsOf(r *rendered) []funcInfo {
@@ -197,7 +197,9 @@ func c08synth(c *core.Check) {
 	reqOK := false
 	if v, ok := got["Requiredness"]; ok {
 		// parser.FieldType_Optional
-		if k, ok := c.Prog.Pkg("parser").Types.Scope().Lookup("FieldType_Optional").(interface{ Val() interface{ ExactString() string } }); ok {
+		if k, ok := c.Prog.Pkg("parser").Types.Scope().Lookup("FieldType_Optional").(interface {
+			Val() interface{ ExactString() string }
+		}); ok {
 			_ = k
 		}
 		reqOK = v == constExact(c, "parser", "FieldType_Optional")
